@@ -11,9 +11,11 @@ verdict message.  Observables are canonical: recording ids are replaced by `<cat
 """
 import atexit
 import datetime
+import multiprocessing
 import os
 import shutil
 import tempfile
+import time
 
 import fake_s3
 from driver_common import main
@@ -26,6 +28,8 @@ from playback.studio.equalizer_tuning import EqualizerTuning, EqualizerTuner
 from playback.tape_cassettes.in_memory.in_memory_tape_cassette import InMemoryTapeCassette
 from playback.tape_cassettes.file_based.file_based_tape_cassette import FileBasedTapeCassette
 
+MAIN_PID = os.getpid()
+JQ = multiprocessing.SimpleQueue()     # journal entries written by comparison worker processes (real processes)
 BASE = datetime.datetime(2020, 2, 27, 10, 0, 0)       # fake clock: day 0 = 20200227, day 1 = 20200228, ...
 _SCRATCH = tempfile.mkdtemp(prefix='studio-scratch-', dir='/tmp')
 atexit.register(lambda: shutil.rmtree(_SCRATCH, ignore_errors=True))
@@ -189,7 +193,10 @@ class TagTuner(EqualizerTuner):
 
         def playback_function(recording):
             meta = recording.get_metadata()
-            journal.append([ptag, store.c(recording.id)])
+            if os.getpid() == MAIN_PID:
+                journal.append([ptag, store.c(recording.id)])
+            else:       # running inside a dedicated comparison process: report to the parent
+                JQ.put([ptag, store.c(recording.id)])
             if meta['beh'] == 'player_raises':
                 raise PlayerBoom('stage=player;P=%s;n=%d' % (ptag, meta['n']))
             Ctx.player, Ctx.version = ptag, 2
@@ -274,6 +281,11 @@ def one_play(case, store, script):
         cfg = CompareExecutionConfig()
     elif case.get('config') == 'keep':
         cfg = CompareExecutionConfig(keep_results_in_comparison=True)
+    elif str(case.get('config')).startswith('dedicated'):     # real worker processes, e.g. "dedicated:2:keep"
+        parts = case['config'].split(':')
+        cfg = CompareExecutionConfig(compare_in_dedicated_process=True, compare_process_timeout=8,
+                                     compare_process_recycle_rate=int(parts[1]) if len(parts) > 1 else 5,
+                                     keep_results_in_comparison='keep' in parts[2:])
     fake_s3.CLOCK.set(BASE + datetime.timedelta(days=case.get('now_day', 3)))
     studio = PlaybackStudio(case.get('categories'), tuner, store.recorder,
                             lookup_properties=lookup_properties(case, store), recording_ids=ids,
@@ -295,13 +307,27 @@ def one_play(case, store, script):
         else:
             out[c] = {"junk": type(v).__name__}
     step = 0
-    trouble = None
+    close = case.get('close') or {}
+
+    def drain():
+        while not JQ.empty():
+            journal.append(JQ.get())
+
+    def maybe_close(c):
+        if c in close and c in live and len(out[c]["cmps"]) >= close[c]:
+            result[c].close()           # the consumer abandons this category
+            out[c]["closed"] = len(out[c]["cmps"])
+            live.remove(c)
+
+    for c in list(live):
+        maybe_close(c)
     while live:
         if script is None:
             c = live[0]
         else:
             c = live[script[step % len(script)] % len(live)] if script else live[0]
         step += 1
+        drain()
         mark = len(journal)
         try:
             cmp_ = next(result[c])
@@ -310,10 +336,12 @@ def one_play(case, store, script):
             continue
         except Exception as ex:   # a result generator died
             out[c]["died"] = type(ex).__name__
-            trouble = trouble or type(ex).__name__
             live.remove(c)
             continue
+        drain()
         out[c]["cmps"].append(project(store, cmp_, journal[mark:]))
+        maybe_close(c)
+    drain()
     return {"cats": cats, "results": [out[c] for c in cats], "tuner_calls": tuner.calls,
             "journal": list(journal),      # every run of a playback function since play() was called
 
@@ -321,14 +349,62 @@ def one_play(case, store, script):
             and not store.recorder._playback_outputs and store.recorder._active_recording is None}
 
 
+def reap():
+    """no comparison worker may outlive a play whose generators were all exhausted or closed; whatever is left is
+    counted and removed"""
+    left = 0
+    for _ in range(40):
+        kids = multiprocessing.active_children()
+        if not kids:
+            break
+        time.sleep(0.025)       # a worker notices the terminate signal within its 50 ms poll
+    for p in multiprocessing.active_children():
+        left += 1
+        p.kill()
+        p.join(2)
+    return left
+
+
+def anomalous(o):
+    """a comparison that does not come from the category's tuning (worker died, timeout, ...) or a dead generator"""
+    for r in o.get("results", []):
+        if "died" in r or "junk" in r:
+            return True
+        for c in r.get("cmps", []):
+            m = c.get("msg")
+            if "junk" in c or not (m in (None, "") or str(m).startswith("stage=")):
+                return True
+    return False
+
+
+def play_checked(case, store, script):
+    """In-process runs are deterministic.  Runs on real worker processes depend on timing: an anomaly only counts if
+    it shows up three times in a row; otherwise the clean run is reported and the anomaly is counted as inconclusive."""
+    real = str(case.get('config')).startswith('dedicated')
+    o = one_play(case, store, script)
+    if not real:
+        return o, 0
+    o["left_workers"] = reap()
+    tries = 0
+    while anomalous(o) and tries < 2:
+        tries += 1
+        o2 = one_play(case, store, script)
+        o2["left_workers"] = reap()
+        if not anomalous(o2):
+            return o2, tries
+        o = o2
+    return o, 0
+
+
 def run_c19(case):
     store = store_for(case['cassette'], case['recs'])
-    seq = one_play(case, store, None)
-    inter = one_play(case, store, case.get('script') or [0])
-    base = None
+    seq, i1 = play_checked(case, store, None)
+    inter, i2 = play_checked(case, store, case.get('script') or [0])
+    base, i3 = None, 0
     if case.get('fail'):     # the same request with every tuner working: other categories must not notice
-        base = one_play(dict(case, fail=[]), store, None)
-    return {"base": base, "store": [[cid, r['cat'], bool(r.get('incomplete')), r.get('day', 0)]
+        base, i3 = play_checked(dict(case, fail=[]), store, None)
+    return {"base": base, "inconclusive": i1 + i2 + i3,
+            "store": [[cid, r['cat'], bool(r.get('incomplete')), r.get('day', 0)]
                       for cid, r in zip(store.ids, store.recs)],
             "seq": seq, "inter": inter}
 
